@@ -1149,7 +1149,7 @@ fn mode_compose(r: &mut Runner) {
     }
     // a wrapped sink (and an error handler) that needs a fair amount of stack - well within what any thread gets by
     // default (100 KiB of a 2 MiB stack): "all wrapped-sink behaviours" includes this one; it runs on the queue's thread
-    {
+    if r.prop == "C08" || r.prop == "C10" {
         struct StackHungry {
             inner: GatedSink,
         }
@@ -1201,8 +1201,10 @@ fn mode_compose(r: &mut Runner) {
     // panics or blocks: releasing the wrapped sink is the background thread's business - the caller's drop returns at
     // once and does not unwind, used queue or not
     for (variant, never_used) in [(0u8, true), (1, true), (0, false), (1, false)] {
-        if SPIN_SEEN.load(std::sync::atomic::Ordering::SeqCst) {
-            return;
+        // (a block of this mode runs only for the properties it reports for: a change that breaks a sibling property must
+        // not keep this run from reaching its own blocks)
+        if SPIN_SEEN.load(std::sync::atomic::Ordering::SeqCst) || r.prop != "C09" {
+            break;
         }
         struct NastyDrop {
             inner: GatedSink,
@@ -1278,8 +1280,8 @@ fn mode_compose(r: &mut Runner) {
     // are answered by queue room like anybody's (the last one is refused), never run inline, and what was accepted is
     // handed over afterwards, in acceptance order, one at a time.
     for via_handler in [false, true] {
-        if SPIN_SEEN.load(std::sync::atomic::Ordering::SeqCst) {
-            return;
+        if SPIN_SEEN.load(std::sync::atomic::Ordering::SeqCst) || !(r.prop == "C08" || r.prop == "C10") {
+            break;
         }
         struct SelfFeeding {
             inner: GatedSink,
@@ -1380,8 +1382,8 @@ fn mode_compose(r: &mut Runner) {
     // the outer queue's thread. In the second variant the handler also calls flush() on a clone of its own queue (a
     // handler may use the sink it belongs to; the flush must come back).
     for flushing_handler in [false, true] {
-        if SPIN_SEEN.load(std::sync::atomic::Ordering::SeqCst) {
-            return;
+        if SPIN_SEEN.load(std::sync::atomic::Ordering::SeqCst) || !(r.prop == "C16" || r.prop == "C10" || r.prop == "C08") {
+            break;
         }
         let sh = Shared::new(true);
         set_current(Some(sh.clone()));
@@ -1484,7 +1486,7 @@ fn mode_compose(r: &mut Runner) {
         set_current(None);
     }
     for variant in 0..6u64 {
-        if SPIN_SEEN.load(std::sync::atomic::Ordering::SeqCst) {
+        if SPIN_SEEN.load(std::sync::atomic::Ordering::SeqCst) || !(r.prop == "C08" || r.prop == "C10") {
             return;
         }
         let n = [40usize, 300, 120, 40, 300, 120][variant as usize];
